@@ -170,7 +170,25 @@ def _lookups(c):
     return tuple(out)
 
 
+_BIG = [0]
+
+
+def _large_index_first(case):
+    """Now and then a large index is built before the case (sizes grow from run to run): whatever the library keeps between
+    calls (allocations shared by all indices) has then been re-made, and containers built afterwards must still hand out
+    read-only arrays."""
+    if len(repr(case['rec'])) % 6:
+        return
+    _BIG[0] = max(_BIG[0] * 2, 1100)
+    if _BIG[0] > 300000:
+        return
+    big = sf.Index(range(_BIG[0]))
+    assert_frozen(big, 'Index(range(%d))' % _BIG[0])
+    assert_frozen(copy.deepcopy(big), 'deepcopy(Index(range(%d)))' % _BIG[0])
+
+
 def check_program(case):
+    _large_index_first(case)
     base = lib(_build, case['kind'], case['rec'])
     if isinstance(base, Raised):
         raise Discard('constructor rejected recipe')
